@@ -1585,6 +1585,86 @@ theorem fmtPath_norm (F : FmtFacts) (steps : List (Step L)) :
   exact assemblePath_congr (fun (x : Step L × List (Tok L)) => (normStep x.1, x.2))
     (fun x => normStep_isSeg x.1) (fun _ => rfl) _
 
+/-- a Path without plain segments prints like the T expression with the same steps -/
+theorem fmtPath_noseg (F : FmtFacts) (steps : List (Step L)) (hne : steps ≠ [])
+    (hns : ∀ s ∈ steps, s.isSeg = false) : fmtPath F steps = fmtT F "T" steps := by
+  have hgen : ∀ (r : List (Step L)) (s : Step L), (∀ x ∈ s :: r, x.isSeg = false) →
+      groupSteps Step.isSeg (s :: r) = [.inl (s :: r)] := by
+    intro r
+    induction r with
+    | nil => intro s h; simp [groupSteps, h s (by simp)]
+    | cons s' r' ih =>
+      intro s h
+      have := ih s' (fun x hx => h x (by simp [hx]))
+      simp only [groupSteps, h s (by simp), Bool.false_eq_true, if_false] at this ⊢
+      rw [this]
+  have hg : groupSteps Step.isSeg steps = [.inl steps] := by
+    cases steps with
+    | nil => exact absurd rfl hne
+    | cons s r => exact hgen r s hns
+  unfold fmtPath fmtT
+  rw [assemblePath_eq, hg]
+  simp only
+  unfold fmtSteps
+  rw [assembleT_noseg F "T" steps hns]
+
+/-- … and the object read back prints as the original did -/
+theorem parseObj_fmtPath_repr (steps : List (Step L)) (hv : validP steps = true) :
+    ∃ y, parseObj (fmtPath F1 steps) = some y ∧ y.root = "T" ∧ y.steps = normSteps steps ∧
+      reprObj F1 y = fmtPath F1 steps := by
+  obtain ⟨y, hy, hr, hs⟩ := parseObj_fmtPath steps hv
+  refine ⟨y, hy, hr, hs, ?_⟩
+  cases y with
+  | pobj r st =>
+    simp only [Obj.steps] at hs
+    subst hs
+    simp only [reprObj, fmtPath_norm]
+  | tobj r st =>
+    simp only [Obj.steps, Obj.root] at hs hr
+    subst hs; subst hr
+    simp only [reprObj, fmtT_norm]
+    -- a T expression is only read back from a text that starts with a root: no `Path(`
+    by_cases hsg : ∀ s ∈ steps, s.isSeg = false
+    · by_cases hne : steps = []
+      · subst hne
+        -- `Path()` is read back as a Path, not as a T expression
+        simp [fmtPath, fmtSteps, assemblePath, groupSteps, joinSep, parseObj] at hy
+      · exact (fmtPath_noseg F1 steps hne hsg).symm
+    · -- some plain segment: the text is `Path(…)`, read back as a Path
+      exfalso
+      have hex : ∃ s ∈ steps, s.isSeg = true := by
+        apply Classical.byContradiction
+        intro hcon
+        apply hsg
+        intro s hs'
+        cases hseg : s.isSeg with
+        | false => rfl
+        | true => exact absurd ⟨s, hs', hseg⟩ hcon
+      obtain ⟨s, hs', hseg⟩ := hex
+      have hgs : ∀ g, groupSteps Step.isSeg steps ≠ [.inl g] := by
+        intro g hg
+        have hfl := groupSteps_flatten Step.isSeg steps
+        have hsp := groupSteps_spec Step.isSeg steps (.inl g) (by rw [hg]; simp)
+        rw [hg] at hfl
+        simp only [List.flatMap_cons, List.flatMap_nil, List.append_nil, unGroup] at hfl
+        subst hfl
+        simp only at hsp
+        rw [hsp.2 s hs'] at hseg
+        cases hseg
+      unfold fmtPath at hy
+      rw [assemblePath_eq] at hy
+      split at hy
+      · rename_i g hg; exact hgs g hg
+      · rw [parseObj] at hy
+        split at hy
+        · cases hy
+        · simp only [objOfParts] at hy
+          split at hy
+          · simp only [Option.map_eq_some_iff] at hy
+            obtain ⟨_, _, h⟩ := hy
+            cases h
+          · cases hy
+
 end roundtrip
 
 end Glom.C18
